@@ -603,7 +603,7 @@ def run(ctx):
     rng = random.Random(ctx.seed)
     k = 1 if ctx.quick else 16
     if os.environ.get("C02_ONLY") == "hist":       # development aid: only the reused-context histories
-        core.log("reused-context decoding histories: violations %d" % ch.run_hist(ctx, random.Random(ctx.seed + 7919), cd, 150 * k))
+        core.log("reused-context decoding histories: violations %d" % ch.run_hist(ctx, random.Random(ctx.seed + 7919), cd, 150 * k, tie=tie))
         return
     # ---- decoder
     streams = cc.build_streams(ctx, rng, cd, 60 * k, 40 * k, 25 * k)
@@ -634,7 +634,7 @@ def run(ctx):
     # ---- other entry points
     run_bufferless_and_legacy(ctx, rng, tie, cd, streams, 24 * k)
     run_window_tie(ctx, rng, tie, cd, 60 * k)
-    nh = ch.run_hist(ctx, random.Random(ctx.seed + 7919), cd, 150 * k)
+    nh = ch.run_hist(ctx, random.Random(ctx.seed + 7919), cd, 150 * k, tie=tie)
     core.log("reused-context decoding histories (dictionaries, prefixes, resets, stable-out, legacy frames): violations %d" % nh)
     nst = cc.run_store_tie(ctx, rng, tie, 60 * k)
     ctx.notes["store_tie_histories_byte_equal"] = nst
@@ -670,7 +670,13 @@ def replay(ctx):
         s = dict(frame=frame, content=content, parts=[tuple(p) for p in parts], magicless=ml, desc=rep.get("desc", "replay"),
                  valid=rep.get("valid", m[0] == "OK"), why=rep.get("why"))
         case = dict(id="d0", stream=s, ops=rep["ops"], flags=flags, maxcalls=60000)
+        if rep.get("dict_hex"):
+            case["dict"] = bytes.fromhex(rep["dict_hex"])
+            if rep.get("content_hex") is not None:
+                s["content"] = bytes.fromhex(rep["content_hex"])
         cc.run_decoder_lockstep(ctx, tie, [case])
+    elif kind == "reuse-history":
+        ch.replay_history(ctx, rep)
     elif kind == "compress-history":
         x = bytes.fromhex(rep["input_hex"])
         case = dict(id="k0", x=x, params=dict(rep["params"]), ops=rep["ops"], pledged=rep.get("pledged"),
